@@ -1,16 +1,28 @@
 #!/usr/bin/env python3
-"""tools/seedmeta.py <seeded-dir> <property> <expect:caught|missed> <rule-or-> — merge agent_meta.json + confirm.json into meta.json"""
+"""tools/seedmeta.py <seeded-dir> <property> [<check-prop>:<caught|missed>:<rule-or->]... [--note text]
+Merges agent_meta.json + confirm.json into meta.json. checked_by lists which registered check is
+expected to catch (or documented to miss) the change; the self-test enforces `caught` entries."""
 import json, sys, os
-d, prop, expect, rule = sys.argv[1:5]
+args = sys.argv[1:]
+note = None
+if '--note' in args:
+    i = args.index('--note'); note = args[i + 1]; args = args[:i] + args[i + 2:]
+d, prop = args[0], args[1]
 am = json.load(open(os.path.join(d, 'agent_meta.json')))
 cf = json.load(open(os.path.join(d, 'confirm.json')))
+old = {}
+if os.path.exists(os.path.join(d, 'meta.json')):
+    old = json.load(open(os.path.join(d, 'meta.json')))
+cb = old.get('checked_by', {})
+for t in args[2:]:
+    cp, ex, rule = t.split(':', 2)
+    cb[cp] = {'expect': ex, 'rule': None if rule == '-' else rule}
 meta = {'property': prop, 'summary': am.get('summary'), 'needs': am.get('needs'),
         'origin': 'independent sub-agent given only the property text and a scratch worktree',
         'what_i_ran': 'tools/confirm_seed.sh %s (scratch worktree of /repo HEAD %s: demo rc=%s on the original; with the patch: build rc=%s, ctest "%s", demo rc=%s)' % (
             d, cf.get('repo_head'), cf.get('demo_original_rc'), cf.get('patched_build_rc'), cf.get('patched_ctest'), cf.get('demo_patched_rc')),
-        'confirmed': cf.get('confirmed'),
-        'checked_by': {prop: {'expect': expect, 'rule': None if rule == '-' else rule}}}
-if len(sys.argv) > 5:
-    meta['note'] = sys.argv[5]
+        'confirmed': cf.get('confirmed'), 'checked_by': cb}
+if note or old.get('note'):
+    meta['note'] = note or old.get('note')
 json.dump(meta, open(os.path.join(d, 'meta.json'), 'w'), indent=1)
-print(d, meta['confirmed'], expect)
+print(d, meta['confirmed'], cb)
